@@ -439,6 +439,11 @@ def main():
                 undecided.append((o.id, "harness was not run (no result reported by Kani)"))
                 continue
             solver_s += r["time"]
+            if r["status"] == "ok" and o.expect_panic:
+                why = "vacuous: the harness is expected to end in a panic of the library and no check failed"
+                undecided.append((o.id, why))
+                results[o.id] = dict(status="undecided", reason=why)
+                continue
             if r["status"] == "ok" and r["covers_sat"] == r["covers"] and r["checks"] > 0:
                 results[o.id] = dict(status="discharged", backend="kani/cbmc+cadical", time_s=r["time"], checks=r["checks"],
                                      covers=r["covers"])
@@ -457,6 +462,19 @@ def main():
                                      covers=r["covers"], note="passed on individual re-run")
                 continue
             cls = [(classify_failure(f), f) for f in pr["fails"]]
+            if o.expect_panic:
+                # the obligation is "every path ends in this panic of the library": that failed check is the expected outcome
+                expected = [f for _, f in cls if re.search(o.expect_panic, f["desc"])]
+                cls = [(c, f) for c, f in cls if not re.search(o.expect_panic, f["desc"])]
+                if not cls and expected and not pr["undetermined"]:
+                    results[o.id] = dict(status="discharged", backend="kani/cbmc+cadical", time_s=r["time"], checks=r["checks"], covers=r["covers"],
+                                         note="the only failed check is the expected panic: " + expected[0]["desc"][:120])
+                    continue
+                if not cls:
+                    why = "the expected panic of the library was not reported by the verifier"
+                    undecided.append((o.id, why))
+                    results[o.id] = dict(status="undecided", reason=why)
+                    continue
             obs = [f for c, f in cls if c == "observable"]
             if o.only:
                 # assertions of the shared harness that state another property's clause
